@@ -10,7 +10,7 @@ alphabet 256 identifiers × flag bits; every disagreement is a violation.
 No hand-written model: the model *is* the extracted table."""
 import re
 
-from ..thir import Evaluator, Slice, Cond, ckey, Unsupported
+from ..thir import Evaluator, Slice, Cond, ckey, vkey, Unsupported
 from ..facts import where
 
 EXPLANATION = __doc__
@@ -375,6 +375,28 @@ def word_type(idv, orc, data_ids):
 
 
 # ------------------------------------------------------------ rule
+def from_id_table(ev, fid="fastpasta::analyze::validators::its::lib::ItsPayloadWord::from_id"):
+    """{identifier: ("Ok", variant) | ("Err", None) | ("?", text)} for all 256 identifiers — ItsPayloadWord::from_id
+    evaluated per value (however its arms, ranges or helper predicates are written); None when it has no body"""
+    from ..thir import Bits as _Bits, Agg as _Agg
+    if ev.tb(fid) is None:
+        return None
+    out = {}
+    for i in range(256):
+        try:
+            r = ev.call_fn(fid, [_Bits.const(i, 8)])
+        except Unsupported as e:
+            out[i] = ("?", str(e)[:60])
+            continue
+        if isinstance(r, _Agg) and r.var == "Ok" and isinstance(r.fields.get("0"), _Agg):
+            out[i] = ("Ok", r.fields["0"].var)
+        elif isinstance(r, _Agg) and r.var == "Err":
+            out[i] = ("Err", None)
+        else:
+            out[i] = ("?", vkey(r)[:60])
+    return out
+
+
 def run(ctx, rep):
     f = ctx.facts()
     ev = Evaluator(f)
@@ -578,24 +600,16 @@ def run(ctx, rep):
         rep.check(ids == data_ids, "R9.2", "R9.2|fsm|%s" % st, "data-word ID set of %s = documented 37 identifiers" % st, w,
                   "data-word ID set in state %s differs: extra %s missing %s" % (st, sorted(map(hex, ids - data_ids)), sorted(map(hex, data_ids - ids))))
     fid = "fastpasta::analyze::validators::its::lib::ItsPayloadWord::from_id"
-    tb = ev.tb(fid)
-    if tb:
+    tab = from_id_table(ev, fid)
+    if tab is not None:
         got = {}
-        for i, n in tb.walk():
-            if n["k"] == "Match":
-                for a in n["arms"]:
-                    arm = tb.arms[a]
-                    r = word_result(tb, arm["body"])
-                    try:
-                        ids = pat_ids(arm["pat"])
-                    except ValueError:
-                        ids = None
-                    got[r] = ids
-                break
-        rep.check(got.get(("Ok", "DataWord")) == data_ids, "R9.2", "R9.2|from_id|data", "ItsPayloadWord::from_id data-word set = documented", fid,
-                  "from_id data-word set differs from documented")
+        for i_, r_ in tab.items():
+            got.setdefault(r_, set()).add(i_)
+        rep.check(got.get(("Ok", "DataWord")) == data_ids, "R9.2", "R9.2|from_id|data", "ItsPayloadWord::from_id data-word set = documented (decided for all 256 identifiers)", fid,
+                  "from_id data-word set differs from documented: extra %s missing %s" % (sorted(map(hex, got.get(("Ok", "DataWord"), set()) - data_ids)), sorted(map(hex, data_ids - got.get(("Ok", "DataWord"), set())))))
         for wname, ids in orc["alphabet"].items():
-            rep.check(got.get(("Ok", wname)) == set(ids), "R9.2", "R9.2|from_id|%s" % wname, "from_id maps %s to %s" % ([hex(x) for x in ids], wname), fid)
+            rep.check(got.get(("Ok", wname)) == set(ids), "R9.2", "R9.2|from_id|%s" % wname, "from_id maps %s to %s" % ([hex(x) for x in ids], wname), fid,
+                      "from_id maps %s to %s (documented %s)" % (sorted(map(hex, got.get(("Ok", wname), set()))), wname, [hex(x) for x in ids]))
     else:
         rep.missing("R9.2", fid)
 
